@@ -112,6 +112,13 @@ class Ctx:
         self.count("harness_errors")
 
     def result(self):
+        try:
+            from vf import libx
+            for k, v in libx.FORM_COUNTS.items():
+                if v:
+                    self.counters[k] = v
+        except Exception:
+            pass
         return {"prop": self.prop, "spec": self.spec, "counters": self.counters,
                 "digests": sorted(self.digests), "sets": {k: sorted(v) for k, v in self.sets.items()}, "samples": self.samples, "violations": self.violations,
                 "violations_total": self.violations_total, "errors": self.errors, "gen_errors": self.gen_errors,
